@@ -4,3 +4,4 @@ concrete engine model (Props/EngineImplSound.lean: EngineImpl_sound_C07_cycle).
 -/
 import LLBuild.Props.C07
 import LLBuild.Props.EngineImplSound
+import LLBuild.Props.EngineImplTerm
